@@ -215,6 +215,36 @@ class Gen:
         self.emit(f"addi sp, sp, {frame}", "epilogue-sp")
         self.emit("ret", "ret")
 
+    def framepointer(self, f):
+        """compiler style: a saved register is set to the entry stack pointer (`addi fp, sp, FRAME`),
+        locals are addressed through it, and the address of a local is computed from it"""
+        r = self.rng
+        self.stats["functions"] += 1
+        self.stats["framepointer"] = self.stats.get("framepointer", 0) + 1
+        frame = r.choice([16, 32, 48])
+        fp = r.choice(["s0", "s0", "s1", "s5", "s11"])
+        buf = r.choice([x for x in (-16, -24, -32, -40) if -x <= frame and x + 4 < -8])
+        t = r.sample(TEMPS, 3)
+        self.emit(f"{f.name}:", None, indent=False)
+        self.emit(f"addi sp, sp, -{frame}", "prologue-sp")
+        self.emit(f"sw ra, {frame - 4}(sp)", "save")
+        self.emit(f"sw {fp}, {frame - 8}(sp)", "save")
+        self.emit(f"addi {fp}, sp, {frame}", "set-fp")
+        for i in range(2):
+            if i < f.nargs:
+                self.emit(f"sw a{i}, {buf + 4 * i}({fp})", "store-local")
+            else:
+                self.emit(f"li {t[i]}, {r.choice([1, 5, 12])}", "li-temp")
+                self.emit(f"sw {t[i]}, {buf + 4 * i}({fp})", "store-local")
+        self.emit(f"addi {t[2]}, {fp}, {buf}", "addr-of-local")
+        self.emit(f"lw {t[0]}, 0({t[2]})", "load-local")
+        self.emit(f"lw {t[1]}, 4({t[2]})", "load-local")
+        self.emit(f"{r.choice(OPS)} a0, {t[0]}, {t[1]}", "set-result")
+        self.emit(f"lw ra, {frame - 4}(sp)", "restore")
+        self.emit(f"lw {fp}, {frame - 8}(sp)", "restore")
+        self.emit(f"addi sp, sp, {frame}", "epilogue-sp")
+        self.emit("ret", "ret")
+
     def preloop(self, f):
         """default result before a scan loop; the loop sets a0 only on its 'found' exit"""
         r = self.rng
@@ -342,6 +372,8 @@ class Gen:
         k = r.random() if self.shapes else 1.0
         if k < 0.15:
             return self.leaf(f)
+        if 0.50 <= k < 0.58:
+            return self.framepointer(f)
         if 0.40 <= k < 0.50 and f.nargs >= 1:
             return self.outloop(f)
         if k < 0.32 and f.nargs == 2:
